@@ -12,12 +12,13 @@
 (***************************************************************************)
 EXTENDS Naturals, Sequences, FiniteSets, TLC, Json
 Carriers == {"hdr", "basic", "ovq", "ovh", "ovc", "ovp", "prov", "key"}
-Ops == {1, 2, 3}              \* 1 = POST /items (link source), 2 = GET /items/{id} (declares the parameters), 3 = GET /plain
+Ops == {1, 2, 3, 4}           \* 1 = POST /items (link source), 2 = GET /items/{id} (declares the parameters), 3 = GET /plain,
+                              \* 4 = DELETE /items/{id}: same path as 2, listed before it, declares only the path parameter
 Phases == {"examples", "coverage", "fuzzing", "stateful", "linked"}
 Declared == {"none", "optional", "required"}
 (* where a configured carrier applies *)
 Applies(c, op, decl) == CASE c \in {"hdr", "basic", "prov", "key"} -> TRUE
-                          [] c = "ovp" -> op = 2
+                          [] c = "ovp" -> op \in {2, 4}
                           [] OTHER -> op = 2 /\ decl # "none"
 VARIABLES cfg, req
 vars == <<cfg, req>>
